@@ -21,6 +21,12 @@ M=[
 ("M15-c11-boundary-320","C11","SingleDetect uses m=2 up to and including 320 bits",[("detect/detect.go","	if n < 320 {\n		m = 2","	if n <= 320 {\n		m = 2")]),
 ("M16-c09-single-swallows-eof","C09","SingleDetect ignores io.EOF / unexpected EOF from the source",[("detect/detect.go","	_, err := io.ReadFull(source, data)\n	if err != nil {\n		return false, err\n	}\n	n := len(data) * 8","	_, err := io.ReadFull(source, data)\n	if err != nil && err != io.EOF && err != io.ErrUnexpectedEOF {\n		return false, err\n	}\n	n := len(data) * 8")]),
 ("M17-c14-fast-error-lost","C14","PowerOnDetectFast reports a failed pass count as (false, nil)",[("detect/detect_fast.go","	fmt.Println(counters)\n\n	for i, itemCnt := range counters {\n		if int(itemCnt) < t {\n			return false, fmt.Errorf(\"%s %d/%d\", randomness.TestMethodArr[i].Name, itemCnt, s)","	fmt.Println(counters)\n\n	for _, itemCnt := range counters {\n		if int(itemCnt) < t {\n			return false, nil")]),
+("M19-c13-unsynchronised-row-slice","C13","2E4 workers append their row to a package-level slice without a lock and main writes the rows after Wait (torn appends lose rows only on real threads: race-monitor clause)",[
+  ("tools/rddetector/work_2E4.go","		go func(file string) {\n			out <- &R{path.Base(file), PArr, QArr}\n		}(filename)","		collected = append(collected, &R{path.Base(filename), PArr, QArr})\n		pending.Done()"),
+  ("tools/rddetector/main.go","// Version 软件版本号","// rows finished by the 2E4 workers, written out by main once all are in\nvar collected []*R\nvar pending *sync.WaitGroup\n\n// Version 软件版本号"),
+  ("tools/rddetector/main.go","	var wg sync.WaitGroup\n	s, sbit","	var wg sync.WaitGroup\n	pending = &wg\n	s, sbit"),
+  ("tools/rddetector/main.go","	wg.Wait()\n\n	log.Printf(\"检测完成","	wg.Wait()\n	for _, r := range collected {\n		_, _ = w.Write([]byte(r.Name))\n		for j := 0; j < len(r.P); j++ {\n			_, _ = w.Write([]byte(fmt.Sprintf(\", %0.6f, %0.6f\", r.P[j], r.Q[j])))\n		}\n		_, _ = w.Write([]byte(\"\\n\"))\n	}\n\n	log.Printf(\"检测完成"),
+ ]),
 ("M18-c20-off-by-one","C20","rdgen dispatches s-1 jobs when s > 64",[("tools/rdgen/main.go","	wg.Add(s)\n","	if s > 64 {\n		s--\n	}\n	wg.Add(s)\n")]),
 ]
 def main():
